@@ -195,7 +195,8 @@ func judge(r *vlib.Run, acl *launch.ACL, t table, us users, tl *tally, via strin
 func TestC35(t *testing.T) {
 	r := vlib.Start(t, "C35", vlib.LevelExploration)
 	defer r.Finish()
-	r.SetRule("case = one ACL table loaded through YAMLACL.Import (users are real public-key strings) and asked every question Allow(user, scope, required); exhaustive: rows u1 and _default each range over all 6^3 assignments of {no entry, x, o, oo, ooo, s} to (scope sa, scope sb, _default), row u2 is a third row varying with the index; asked for users {u1, u2, stranger not in the table, superuser} x scopes {sa, sb, a scope with no entry} x required {o, oo, ooo, s} (+ required=x where the deciding entry is x); distinct = (u1 row, _default row); non-trivial = at least one row has an entry. Then sequences of imports into one YAMLACL, and String/UnmarshalText round trip of every valid perm 1..79")
+	r.SetRule("case = one ACL table loaded through YAMLACL.Import (users are real public-key strings) and asked every question Allow(user, scope, required); exhaustive: rows u1 and _default each range over all 6^3 assignments of {no entry, x, o, oo, ooo, s} to (scope sa, scope sb, _default), row u2 is a third row varying with the index; asked for users {u1, u2, stranger not in the table, superuser} x scopes {sa, sb, a scope with no entry} x required {o, oo, ooo, s} (+ required=x where the deciding entry is x); distinct = (u1 row, _default row); non-trivial = at least one row has an entry. Then sequences of imports into one YAMLACL; then decisions DURING re-import: an episode = one ACL, 2-4 tables (the three modelled rows + 0..N unrelated users, entries in varying document order: default user first / last / in between, so a user's entry is re-inserted after or before the default user's), one writer goroutine importing them over and over in a seed-fixed order (changed table, identical table, user removed and re-added) while 2-8 reader goroutines call Allow continuously; episode kinds hold fixed the user's own scope entry / the user's own _default / the default user's row / all modelled rows / nothing, everything else varies between the tables; every question (u1, u2, stranger, superuser) x scope x required whose decision by the statement is the same in ALL tables of the episode must get that answer at any time (no timing assumption), the other questions are judged by the writer between two of its own imports; distinct (during-import/...) = (episode kind, #tables, #readers, #entries, deciding levels answered) of episodes where answers were observed while an Import call was open. Last, String/UnmarshalText round trip of every valid perm 1..79")
+	r.Assume("while one goroutine replaces the table through YAMLACL.Import the ACL holds, at every moment, either the table imported before or the one being imported: an answer that no table of the episode gives is a decision that does not follow the documented precedence")
 	r.Assume("required=x (prohibit) is not a request any caller makes (callers ask ReadAllowACLPerm=o / WriteAllowACLPerm=oo); for it only 'explicit prohibit denies' is judged; the code denies the superuser for required=x, which is counted (required_x_superuser_denied) and not judged")
 	r.Assume("the verdict is the allowed flag; the returned assigned perm is compared with the deciding entry and mismatches are only counted (assigned_mismatch)")
 	r.Assume("the superuser has no row in the table (Import rejects that)")
@@ -300,7 +301,10 @@ func TestC35(t *testing.T) {
 	r.Set("reimport_sequences", nseq)
 	r.Set("reimport_imports", imports)
 
-	// 4. text round trip for every valid perm
+	// 4. decisions while another goroutine re-imports the ACL (concurrent_test.go)
+	concurrentPhase(r, us, key, enc, &tl)
+
+	// 5. text round trip for every valid perm
 	for p := 1; p <= 79; p++ {
 		perm := launch.ACLPerm(p)
 		r.Eval(1)
